@@ -12,7 +12,18 @@ var (
 	origDefault = slog.Default()
 	origLevel   = slog.GetLevel()
 	origFlags   = slog.GetFlags()
+	homeDir, _  = os.UserHomeDir()
+	cwdDir, _   = os.Getwd()
 )
+
+// ResetPathTables puts the known-path tables back to their documented initial state.
+func ResetPathTables() {
+	slog.ResetKnownPathMapping()
+	slog.AddKnownPathMapping(homeDir, "~")
+	slog.AddKnownPathMapping(cwdDir, ".")
+	slog.ResetKnownPathRegexpMapping()
+	slog.AddKnownPathRegexpMapping(`/Volumes/[^/]+/`, `~`)
+}
 
 // InitialLevel is the package default level observed at process start
 // (Debug under go test, Warn in a production process).
@@ -54,6 +65,7 @@ func Canon() (restore func()) {
 	is.SetTraceMode(false)
 	slog.SetLevelOutputWidth(3)
 	slog.SetMessageMinimalWidth(36)
+	ResetPathTables()
 	restoreLevels := slog.VerifSnapshotLevels()
 	return func() {
 		restoreLevels()
@@ -64,5 +76,6 @@ func Canon() (restore func()) {
 		is.SetTraceMode(false)
 		slog.SetLevelOutputWidth(3)
 		slog.SetMessageMinimalWidth(36)
+		ResetPathTables()
 	}
 }
